@@ -46,6 +46,10 @@ CHECKS = {
          "deterministic simulation with fault injection: real requests/urllib3 stack on a simulated transport adapter and static-server model (documented nginx rules, Range, zero-range policy seeded); datasets produced by the real writers on SimFS; per-request seeded fault sequences (4xx/5xx, connection reset, timeout, dropped body, short / over-long / ignored range); equivalence with local reading",
          "Seeded search over dataset kinds, sharding triples, subsets, URL spellings and server policies; class 1 compares every position over HTTP with the local accessor, class 2 injects 1-3 faults per fetch on learned request ordinals and requires exact bytes or an error of the stated class. Sampling, not proof.",
          "Trusts the server model as a faithful reading of docs/serving-data.rst and RFC 7233, and the real requests/urllib3 response handling above the adapter seam. TLS, proxies, redirects, chunked transfer and stalls are not modelled."),
+ "C13": ("exploration",
+         "deterministic simulation: the real convert-chunks main() run as a simulated process (argparse, exit status, atexit handlers run LIFO by the simulator, or killed before them) from local or simulated-HTTP sources into file / sharded destinations on SimFS; a new simulated process decodes the destination and compares with the source model",
+         "Seeded search over source x destination kinds, encodings, widening dtype pairs, sharding triples, --copy-info, multi-scale chunk sizes; relational oracle (destination == source after the documented conversion, source tree hash unchanged, exit status 0). The dependence on the exit handler is pinned by the kill class in thorough. Sampling, not proof.",
+         "Trusts SimProc's model of CPython exit semantics (handlers LIFO, their exceptions ignored for the status), SimFS and SimHTTP."),
 }
 
 def main():
